@@ -534,8 +534,8 @@ func genC06(g *Gen) {
 					firstDamage = starts[s] + 1
 				}
 				mut = "tglen:" + map[bool]string{true: "neg", false: "nonneg"}[v < 0]
-				if v >= 0 && v < 7 {
-					mut = "tglen:lt7"
+				if v >= 0 && v < 8 {
+					mut = "tglen:lt8"
 				}
 			}
 		case 7: // insert garbage
@@ -585,7 +585,8 @@ func genC06(g *Gen) {
 				mut = "swap_records"
 			}
 		case 10: // garbage suffix
-			suffix := [][]byte{{2}, {0}, {1}, {0, 1, 2, 3}, {2, 1, 1}, g.Bytes(1 + g.Intn(30)), {9, 9, 9}}[g.Intn(7)]
+			suffix := [][]byte{{2}, {0}, {1}, {0, 1, 2, 3}, {2, 1, 1}, g.Bytes(1 + g.Intn(30)), {9, 9, 9},
+				make([]byte, 1+g.Intn(60))}[g.Intn(8)] // the last one: a zero-filled tail
 			out = append(append([]byte{}, walBytes...), suffix...)
 			firstDamage = total
 			mut = "suffix"
